@@ -309,6 +309,13 @@ def canonicalise_private_names(P, table):
         g = [x for x in gone if x.rsplit("::", 1)[0] == parent and fns[x]["sig"] == fns[k]["sig"] and fns[x]["unsafe"] == fns[k]["unsafe"]]
         if len(c) == 1 and len(g) == 1:
             kmap[c[0]] = k
+    # a non-pub function moved into another (nested / sibling) private module of the same crate keeps its name and signature
+    for k in [k_ for k_ in gone if k_ not in kmap.values()]:
+        last, crate = k.rsplit("::", 1)[1], k.split("::", 1)[0]
+        c = [n for n in new if n not in kmap and n.rsplit("::", 1)[1] == last and n.split("::", 1)[0] == crate and sig(P.fns[n]) == fns[k]["sig"] and bool(P.fns[n].get("unsafe")) == fns[k]["unsafe"]]
+        g = [x for x in gone if x.rsplit("::", 1)[1] == last and x.split("::", 1)[0] == crate and fns[x]["sig"] == fns[k]["sig"]]
+        if len(c) == 1 and len(g) == 1:
+            kmap[c[0]] = k
     if kmap:
         rx = re.compile(r"(?<![\w:])(" + "|".join(re.escape(k) for k in sorted(kmap, key=len, reverse=True)) + r")(?![\w])")
         sub = lambda s: rx.sub(lambda mm: kmap[mm.group(1)], s) if isinstance(s, str) and "::" in s else s
